@@ -67,7 +67,7 @@ func cmdLangRun(args []string) error {
 	fmt.Sscan(args[3], &maxreq)
 	rng := rand.New(rand.NewSource(seed()))
 	ctx := context.Background()
-	langs := []string{"nor", "fra", "swa"}
+	langs := []string{"nor", "fra", "swa", "eng"} // (eng is the library's default-language code: a session in it still gets its own translations)
 	nodes := map[string][]Instr{
 		"root": {{Op: "MOUT", A: "item", B: "1"}, {Op: "MOUT", A: "other", B: "2"}, {Op: "HALT"}, {Op: "INCMP", A: "sw", B: "1"}, {Op: "INCMP", A: "sub", B: "2"}, {Op: "INCMP", A: "quit", B: "3"}},
 		// (sub is only entered from root and only left upwards: the static symbol is loaded afresh, in the language the session
@@ -140,10 +140,10 @@ func cmdLangRun(args []string) error {
 			// what one session selects must not reach the next one)
 			cfgLang := ""
 			if ai%2 == 1 {
-				cfgLang = []string{"nor", "swa"}[(ai/2)%2]
+				cfgLang = []string{"nor", "swa", "eng"}[(ai/2)%3]
 			}
 			var calls []string
-			codes := []string{"nor", "fra", "xx", "swa", "en", "no"}
+			codes := []string{"nor", "fra", "xx", "swa", "en", "no", "eng"}
 			ncall := rng.Intn(6)
 			setlang := func(ctx context.Context, sym string, input []byte) (resource.Result, error) {
 				c := codes[ncall%len(codes)]
